@@ -210,3 +210,329 @@ def interleaving_obligation(n_init=3, n_obs=3):
         "interleaving model: <= %d racing initialisers and <= %d observers, every interleaving of their atomic OnceLock operations "
         "(operation sequences per thread are the ones established by the structural obligations); OnceLock = atomic write-once cell (trusted contract)" % (n_init, n_obs),
         must, wit, false)
+
+
+# ================================================================================================================
+# Generalised C20 check: the operation sequences on the OnceLock are EXTRACTED from the MIR of `init` (whatever they
+# are among get / set / get_or_init), the interleaving model is instantiated from them, counter-schedules are replayed
+# by a native stress program racing the REAL `AmbientSlot::init`.
+
+OPS = {"OnceLock::get": "get", "OnceLock::set": "set", "OnceLock::get_or_init": "get_or_init"}
+# slot-level calls: `is_enabled(self)` / `get(self)` are ONE `OnceLock::get` each and `is_enabled` returns true iff it returned
+# Some - exactly what the structural obligations E2cfg_get_one_get / E2cfg_is_enabled_one_get establish on every run
+SLOT_CALLS = {"AmbientSlot::is_enabled": "get", "AmbientSlot::get": "get"}
+
+
+def lock_ops(P, A):
+    """-> (ops [(effect, kind)], checks). Every use of the slot parameter / its OnceLock field must be a recognised operation."""
+    checks = []
+    slot = "_%d" % A.body.params[0][0]
+    ops, other = [], []
+    for e in A.effects:
+        if e.kind != "call":
+            continue
+        touches_field = any(re.search(LOCK, a or "") for a in e.args)
+        touches_slot = any(a == slot for a in e.args)
+        if touches_field and e.name in OPS and re.search(LOCK, e.args[0] or ""):
+            ops.append((e, OPS[e.name]))
+        elif touches_slot and e.name in SLOT_CALLS and e.args[0] == slot:
+            ops.append((e, SLOT_CALLS[e.name]))
+        elif touches_field or touches_slot:
+            other.append(e.name)
+    checks.append(("init: every call that receives the slot or its OnceLock field is one of get / set / get_or_init / is_enabled / get "
+                   "(others: %s)" % other[:4], not other))
+    checks.append(("init: at least one and at most 4 OnceLock operations per path (%d call sites)" % len(ops), 1 <= len(ops) <= 8))
+    checks.append(("init: no indirect call, has a return", not [e for e in A.effects if e.kind == "call" and e.method == "<indirect>"] and len(A.returns) > 0))
+    # closures (the get_or_init initialiser, the map_* closures) must not touch the slot
+    bad = []
+    for cb in cfgabs.nested_closures(P, A.body):
+        for blk in cb.blocks.values():
+            t = blk.term
+            if t and t[0] == "call" and re.search(r"OnceLock|AmbientSlot", t[2]):
+                bad.append(t[2][:50])
+    checks.append(("init: its closures contain no OnceLock / AmbientSlot call (%s)" % bad[:2], not bad))
+    return ops, checks
+
+
+def extract_classes(A, ops, workdir, limit=48):
+    """All abstract returning paths of `init`, projected on (which lock operations ran, in DAG order; the Option/Result/bool
+    variant each returned; the variant of the function's return): all-SAT enumeration with blocking clauses.
+    -> [{"ops": [(kind, required outcome | None)], "ret": 0|1}]"""
+    import os
+    os.makedirs(workdir, exist_ok=True)
+    rets = A.returns
+    rg = b_or(*[r.guard for r in rets])
+    proj = []
+    for e, kind in ops:
+        gm, om = A.mirror[e.id]
+        proj.append((e, kind, gm, om if e.boolish else None))
+    retm = [A.mirror[r.id] for r in rets]
+    blocks, classes = [], []
+    for it in range(limit + 1):
+        lines = ["(assert %s)" % smt.lit(rg)] + blocks + ["(check-sat)"]
+        path = os.path.join(workdir, "classes_%s_%d.smt2" % (A.name, it))
+        with open(path, "w") as f:
+            f.write(A.S.render(lines))
+        a = smt.run_solver("cvc5", path, 60)
+        if a.status == "unsat":
+            return classes
+        if a.status != "sat" or it == limit:
+            raise Unsupported("path-class enumeration of %s: %s after %d classes" % (A.name, a.status, len(classes)))
+        m = a.model
+        seq, lits = [], []
+        for e, kind, gm, om in proj:
+            ex = m.get(gm) is True
+            lits.append(gm if ex else "(not %s)" % gm)
+            if ex:
+                o = m.get(om) if om is not None else None
+                seq.append((kind, o))
+                if om is not None:
+                    lits.append("(= %s %s)" % (om, smt.lit(o)))
+        rv = None
+        for (gm, om), r in zip(retm, rets):
+            if m.get(gm) is True:
+                rv = m.get(om)
+                lits.append("(= %s %s)" % (om, smt.lit(rv)))
+        if rv not in (0, 1):
+            raise Unsupported("init returns a value whose variant is not Some/None on some path (%r)" % rv)
+        classes.append({"ops": seq, "ret": rv})
+        blocks.append("(assert (not (and %s)))" % " ".join(lits))
+    return classes
+
+
+def describe_classes(classes):
+    def o(kind, v):
+        if v is None:
+            return kind
+        names = {"set": {0: "Ok", 1: "Err"}, "get": {0: "None/false", 1: "Some/true"}}.get(kind, {})
+        return "%s=%s" % (kind, names.get(v, v))
+    return ["[%s] -> %s" % ("; ".join(o(k, v) for k, v in c["ops"]), "Some" if c["ret"] == 1 else "None") for c in classes]
+
+
+class ClassInterleaving:
+    """Interleaving model instantiated from the extracted path classes. Cell: 0 = empty, i = value of initialiser i.
+    Atomic semantics (std's documented contract, trusted): get = read; set = write-if-empty, Ok iff it wrote;
+    get_or_init = write-if-empty then read. Each initialiser follows one class; the class must be consistent with what its
+    operations actually returned. Assumption A (stated in the evidence): where two classes differ only in free decisions
+    (downcasts ...) a thread that only ever read back ITS OWN value takes the Some-returning one (its own types match)."""
+
+    def __init__(self, classes, n_init=3, n_obs=3):
+        self.name = "oncelock_classes_%di_%do" % (n_init, n_obs)
+        self.problems, self.cuts = [], []
+        S = self.S = smt.Script()
+        self.classes, self.n_init, self.n_obs = classes, n_init, n_obs
+        L = max(len(c["ops"]) for c in classes)
+        self.L = L
+        KIND = {"skip": 0, "get": 1, "set": 2, "get_or_init": 3}
+        slots = [("i", i, j) for i in range(1, n_init + 1) for j in range(L)] + [("o", j, 0) for j in range(1, n_obs + 1)]
+        self.slots = slots
+        n = len(slots)
+        self.act = {("i", i): S.declare_bool("act_init") for i in range(1, n_init + 1)}
+        self.act.update({("o", j): S.declare_bool("act_obs") for j in range(1, n_obs + 1)})
+        self.cls = {i: S.declare_int("cls", 0, len(classes) - 1) for i in range(1, n_init + 1)}
+        order = [S.declare_int("slot", 0, n - 1) for _ in range(n)]
+        S.lemma("(distinct %s)" % " ".join(order))
+        self.order = order
+        pos = {}
+        for o in range(n):
+            t = n - 1
+            for k in reversed(range(n - 1)):
+                t = ite(i_eq(order[k], o), k, t)
+            pos[o] = S.define_int("pos", t)
+        self.pos = pos
+        for i in range(n_init):
+            for j in range(L - 1):
+                S.lemma(i_lt(pos[i * L + j], pos[i * L + j + 1]))
+
+        def kind_of(i, j):
+            t = KIND["skip"]
+            for c, cl in enumerate(classes):
+                if j < len(cl["ops"]):
+                    t = ite(i_eq(self.cls[i], c), KIND[cl["ops"][j][0]], t)
+                else:
+                    t = ite(i_eq(self.cls[i], c), KIND["skip"], t)
+            return S.define_int("kind", t)
+
+        kinds = {}
+        for o, (who, i, j) in enumerate(slots):
+            kinds[o] = kind_of(i, j) if who == "i" else KIND["get"]
+        cell = 0
+        val = {o: -1 for o in range(n)}        # value read (get / get_or_init), -1 = nothing read
+        var = {o: -1 for o in range(n)}        # variant: set Ok 0 / Err 1; get None 0 / Some 1
+        for k in range(n):
+            newcell = cell
+            for o, (who, i, j) in enumerate(slots):
+                runs = b_and(i_eq(order[k], o), self.act[(who, i)])
+                kd = kinds[o]
+                empty = i_eq(cell, 0)
+                writes = b_and(runs, empty, b_or(i_eq(kd, KIND["set"]), i_eq(kd, KIND["get_or_init"]))) if who == "i" else False
+                newcell = ite(writes, i, newcell)
+                if who == "i":
+                    after = ite(empty, i, cell)
+                    val[o] = ite(b_and(runs, i_eq(kd, KIND["get"])), cell, ite(b_and(runs, i_eq(kd, KIND["get_or_init"])), after, val[o]))
+                    var[o] = ite(b_and(runs, i_eq(kd, KIND["get"])), ite(empty, 0, 1),
+                                 ite(b_and(runs, i_eq(kd, KIND["set"])), ite(empty, 0, 1), var[o]))
+                else:
+                    val[o] = ite(runs, cell, val[o])
+                    var[o] = ite(runs, ite(empty, 0, 1), var[o])
+            cell = S.define_int("cell", newcell)
+            for o in range(n):
+                val[o] = S.define_int("val", val[o])
+                var[o] = S.define_int("var", var[o])
+        self.val, self.var, self.final = val, var, cell
+        # class consistency + return value + assumption A
+        self.ret = {}
+        sig = lambda cl: tuple(cl["ops"])
+        for i in range(1, n_init + 1):
+            r = 0
+            for c, cl in enumerate(classes):
+                here = i_eq(self.cls[i], c)
+                for j, (kd, want) in enumerate(cl["ops"]):
+                    if want is not None:
+                        S.lemma(smt.b_implies(b_and(self.act[("i", i)], here), i_eq(var[(i - 1) * L + j], want)))
+                r = ite(here, cl["ret"], r)
+                if cl["ret"] == 0 and any(sig(d) == sig(cl) and d["ret"] == 1 for d in classes):
+                    reads = [(i - 1) * L + j for j, (kd, want) in enumerate(cl["ops"]) if kd == "get_or_init" or (kd == "get" and want != 0)]
+                    own = b_and(*[i_eq(val[o], i) for o in reads]) if reads else False
+                    S.lemma(smt.b_implies(b_and(self.act[("i", i)], here), b_not(own)))
+            self.ret[i] = S.define_int("ret", ite(self.act[("i", i)], r, 0))
+
+    def stats(self):
+        return "%d path classes of init, <= %d ops each; %d optional initialisers + %d optional observers (one get each): %d atomic steps, every permutation respecting program order" % (
+            len(self.classes), self.L, self.n_init, self.n_obs, len(self.slots))
+
+    def path_from_model(self, model):
+        out = []
+        descr = describe_classes(self.classes)
+        for i in range(1, self.n_init + 1):
+            c = model.get(self.cls[i])
+            if model.get(self.act[("i", i)]) is True and c is not None:
+                out.append({"effect": "initialiser %d follows %s" % (i, descr[c])})
+        for k, s in enumerate(self.order):
+            o = model.get(s)
+            if o is None:
+                continue
+            who, i, j = self.slots[o]
+            if model.get(self.act[(who, i)]) is True:
+                out.append({"effect": "step %d: %s %d, operation %d" % (k, "initialiser" if who == "i" else "observer", i, j)})
+        return out
+
+
+STRESS = r'''use emit_core::{emitter::Emitter, event::ToEvent, runtime::{AmbientSlot, Runtime}};
+use std::sync::{atomic::{AtomicUsize, Ordering}, Arc};
+use std::time::{Duration, Instant};
+
+// same-typed components tagged by thread id
+struct Tag(usize);
+impl Emitter for Tag {
+    fn emit<E: ToEvent>(&self, _: E) {}
+    fn blocking_flush(&self, _: Duration) -> bool { true }
+}
+
+const THREADS: usize = %(threads)d;
+const ROUNDS: usize = %(rounds)d;
+
+fn main() {
+    let slots: Arc<Vec<AmbientSlot>> = Arc::new((0..ROUNDS).map(|_| AmbientSlot::new()).collect());
+    let ok: Arc<Vec<AtomicUsize>> = Arc::new((0..ROUNDS).map(|_| AtomicUsize::new(0)).collect());
+    let foreign: Arc<Vec<AtomicUsize>> = Arc::new((0..ROUNDS).map(|_| AtomicUsize::new(0)).collect());
+    let barrier = Arc::new(AtomicUsize::new(0));
+    let limit = Arc::new(AtomicUsize::new(ROUNDS));      // thread 0 lowers it (before arriving at the barrier) to stop everybody in the same round
+    let start = Instant::now();
+    let handles: Vec<_> = (0..THREADS).map(|id| {
+        let (slots, ok, foreign, barrier, limit) = (slots.clone(), ok.clone(), foreign.clone(), barrier.clone(), limit.clone());
+        std::thread::spawn(move || {
+            for round in 0..ROUNDS {
+                if id == 0 && round > 0 {
+                    let prev = (ok[round - 1].load(Ordering::SeqCst), foreign[round - 1].load(Ordering::SeqCst));
+                    if prev.0 != 1 || prev.1 != 0 || start.elapsed() > Duration::from_secs(%(budget)d) { limit.store(round, Ordering::SeqCst); }
+                }
+                // spin barrier: all threads enter the round together
+                barrier.fetch_add(1, Ordering::SeqCst);
+                let mut spins = 0u32;
+                while barrier.load(Ordering::SeqCst) < (round + 1) * THREADS {
+                    std::hint::spin_loop();
+                    spins += 1;
+                    if spins %% 2000 == 0 { std::thread::yield_now(); }
+                }
+                if round >= limit.load(Ordering::SeqCst) { break; }
+                if let Some(rt) = slots[round].init(Runtime::new().with_emitter(Tag(id + 1))) {
+                    ok[round].fetch_add(1, Ordering::SeqCst);
+                    if rt.emitter().0 != id + 1 { foreign[round].fetch_add(1, Ordering::SeqCst); }
+                }
+            }
+        })
+    }).collect();
+    for h in handles { h.join().unwrap(); }
+    let done = limit.load(Ordering::SeqCst);
+    let bad: Vec<(usize, usize, usize)> = (0..done).filter_map(|r| {
+        let (n, f) = (ok[r].load(Ordering::SeqCst), foreign[r].load(Ordering::SeqCst));
+        if n != 1 || f != 0 { Some((r, n, f)) } else { None }
+    }).collect();
+    println!("{} rounds x {} racing initialisers in {:?}: {} rounds violate", done, THREADS, start.elapsed(), bad.len());
+    // C20: however many threads race to initialise, exactly one attempt succeeds and all others report failure
+    assert!(bad.is_empty(), "{} of {} rounds had a number of successful AmbientSlot::init calls != 1 or a success handed another thread's components; first (round, successes, foreign): {:?}", bad.len(), done, bad[0]);
+}
+'''
+
+
+def generalised_obligations(P, abs_, workdir, native_for, n=3):
+    """-> [CfgObligation]: extraction self-check + class-instantiated interleaving model (with stress-replay concretisation)."""
+    from .cfg_driver import native_verdict
+    A = abs_["init"]
+    ops, checks = lock_ops(P, A)
+    obs = []
+    if not all(ok for _, ok in checks):
+        obs.append(CfgObligation("E2cfg_init_lock_operations_extracted", [A], [FNS[0]], "", [], [], [], static_checks=checks))
+        return obs, None
+    classes = extract_classes(A, ops, workdir)
+    descr = describe_classes(classes)
+    checks.append(("init: %d path classes extracted: %s" % (len(classes), "; ".join(descr)), 1 <= len(classes)))
+    some = [c for c in classes if c["ret"] == 1]
+    checks.append(("init: some class returns Some", bool(some)))
+    # the extraction itself is an obligation: the guards of the lock operations on returning paths are exactly those of the classes
+    rg = b_or(*[r.guard for r in A.returns])
+    obs.append(CfgObligation("E2cfg_init_lock_operations_extracted", [A], [FNS[0]],
+                             "all abstract returning paths of the MIR of AmbientSlot::init projected on its OnceLock operations: " + "; ".join(descr),
+                             [("no_returning_path_without_a_lock_operation", A, [b_and(rg, b_not(b_or(*[e.guard for e, _ in ops])))])],
+                             [("a_returning_path_exists", A, [rg])],
+                             [("FALSE_every_returning_path_runs_every_operation", A, [b_and(rg, b_not(b_and(*[e.guard for e, _ in ops])))])] if len(ops) > 1 else
+                             [("FALSE_no_path_returns", A, [rg])], static_checks=checks))
+    M = ClassInterleaving(classes, n, n)
+    acts = [M.act[("i", i)] for i in range(1, n + 1)]
+    n_some = "(+ 0 0 %s)" % " ".join(smt.lit(ite(i_eq(M.ret[i], 1), 1, 0)) for i in range(1, n + 1))
+    some_init = b_or(*acts)
+    L = M.L
+    reads_i = [o for o, (w, i, j) in enumerate(M.slots) if w == "i"]
+    reads_o = [o for o, (w, i, j) in enumerate(M.slots) if w == "o"]
+    must = [
+        ("exactly_one_attempt_reports_success", M, [b_and(some_init, "(not (= %s 1))" % n_some)]),
+        ("only_the_thread_whose_components_are_installed_reports_success", M,
+         [b_or(*[b_and(i_eq(M.ret[i], 1), i_ne(M.final, i)) for i in range(1, n + 1)])]),
+        ("components_are_installed_iff_someone_initialises", M, [b_not(smt.b_eq(some_init, i_ne(M.final, 0)))]),
+        ("every_read_sees_empty_or_the_winner", M, [b_or(*[b_and(i_ne(M.val[o], -1), i_ne(M.val[o], 0), i_ne(M.val[o], M.final)) for o in reads_i + reads_o])]),
+        ("once_enabled_always_the_same_value", M,
+         [b_or(*[b_and(i_lt(M.pos[a], M.pos[b]), i_ne(M.val[a], -1), i_ne(M.val[a], 0), i_ne(M.val[b], -1), i_ne(M.val[b], M.val[a]))
+                 for a in reads_o for b in reads_o if a != b])]),
+    ]
+    wit = [("all_initialisers_race_and_number_2_wins_and_reports_success", M, [b_and(*acts), i_eq(M.final, min(2, n)), i_eq(M.ret[min(2, n)], 1)]),
+           ("an_observer_sees_empty_and_a_later_one_the_winner", M,
+            [b_or(*[b_and(i_eq(M.val[a], 0), i_ne(M.val[b], -1), i_ne(M.val[b], 0)) for a in reads_o for b in reads_o if a != b])])]
+    false = [("FALSE_initialiser_1_always_wins", M, [b_and(*acts), i_ne(M.final, 1)])]
+
+    def concretise(ctx, qname, cand):
+        if native_for is None:
+            return "inconclusive", "counter-schedule for %s; candidate only" % qname
+        main = STRESS % {"threads": 4, "rounds": 20000, "budget": 40}
+        return native_verdict(ctx, "E2cfg_init_race_exactly_one_success", native_for(), main, "core", [], features=["std"],
+                              default_features=False,
+                              note="counter-schedule of the interleaving model instantiated from the extracted path classes (%s); "
+                                   "replayed as a stress run: 4 threads x 20000 rounds racing the real AmbientSlot::init on fresh slots" % "; ".join(descr))
+
+    obs.append(CfgObligation(
+        "E2cfg_init_race_exactly_one_success", [M], FNS,
+        "interleaving model instantiated from the path classes extracted from the MIR of init (%s): <= %d racing initialisers and <= %d observers, every "
+        "interleaving of their atomic OnceLock operations; OnceLock get / set / get_or_init = atomic read / write-if-empty / write-if-empty-then-read "
+        "(trusted contract); assumption A: a thread that only read back its own value passes its own downcasts" % ("; ".join(descr), n, n),
+        must, wit, false, concretise=concretise))
+    return obs, classes
